@@ -64,7 +64,7 @@ def replay_production(ob, kind):
         cands += [(inst + ' ; select 2 ;', 2), ('select ( ' + inst + ' ; x ) from t ; select 2 ;', 2),
                   ('select 1 from t where y = ' + inst + ' and z in ( 1 ; 2 ) ; select 2 ;', 2),
                   ('select ' + inst + ' , ( 1 ; 2 ) from t ; select 2 ;', 2)]
-    if fam in ('BODY', 'INCASE', 'PROC0', 'RESET', 'DECL'):
+    if fam in ('BODY', 'XB', 'PROC0', 'RESET', 'DECL'):
         for body in (inst, 'v := ' + inst, 'v := case when a = 1 then ' + inst + ' end',
                      'if a = 1 then v := ' + inst + ' ; end if'):
             cands += [('create function f ( ) begin ' + body + ' ; x := 1 ; end ; select 2 ;', 2),
